@@ -152,7 +152,7 @@ Hint Resolve hs_act hs_hist hs_msgq hs_defq hs_curseq hs_running : stab.
 Hypothesis Hpei : forall s co fuel ev src, child children s = Some co -> pres P (lift_child s 0 (co_pei co fuel ev src)).
 Hypothesis Hexit_pre : forall s co fuel ev, child children s = Some co -> pres P (lift_child s tt (co_exit_pre co fuel ev)).
 Hypothesis Hexit_post : forall s co ev, child children s = Some co -> pres P (lift_child s tt (co_exit_post co ev)).
-Hypothesis Hentry : forall fuel s ev k, pres P (exec_entry cf mc children fuel s ev k).
+Hypothesis Hentry : forall fuel s ev k, pres P (exec_entry cf contained mc children fuel s ev k).
 
 Lemma p_push_msg q : pres P (push_msg q).
 Proof. unfold push_msg. pres_auto. Qed.
@@ -176,18 +176,20 @@ Lemma p_cb_at path k id ev w : pres P (cb_at mc path k id ev w).
 Proof. apply p_callback_at. Qed.
 Hint Resolve p_cb p_cb_at : stab.
 
-Lemma p_absorb_up : pres P (absorb_up mc).
-Proof. unfold absorb_up. pres_auto. Qed.
+Lemma p_absorb_up_gen b : pres P (absorb_up b mc).
+Proof. unfold absorb_up. destruct b; pres_auto. Qed.
+Lemma p_absorb_up : pres P (absorb_up contained mc).
+Proof. exact (p_absorb_up_gen contained). Qed.
 Hint Resolve p_absorb_up : stab.
 
-Lemma p_in_child {A} s (d:A) m : pres P (lift_child s d m) -> pres P (in_child mc s d m).
+Lemma p_in_child {A} s (d:A) m : pres P (lift_child s d m) -> pres P (in_child contained mc s d m).
 Proof. intros H. unfold in_child. pres_auto. Qed.
 
 Lemma p_defer_event e : pres P (defer_event e).
 Proof. unfold defer_event. pres_auto. Qed.
 Hint Resolve p_defer_event : stab.
 
-Lemma p_exec_exit fuel s ev : pres P (exec_exit mc children fuel s ev).
+Lemma p_exec_exit fuel s ev : pres P (exec_exit contained mc children fuel s ev).
 Proof.
   unfold exec_exit. destruct (child children s) as [co|] eqn:E; [|auto with stab].
   pres_auto; apply p_in_child; eauto.
@@ -203,11 +205,11 @@ Lemma p_run_guard x ev : pres P (run_guard mc x ev).
 Proof. unfold run_guard. pres_auto. Qed.
 Hint Resolve p_run_action p_run_guard Hentry : stab.
 
-Lemma p_exec_row fuel r x ev : pres P (exec_row cf mc children fuel r x ev).
+Lemma p_exec_row fuel r x ev : pres P (exec_row cf contained mc children fuel r x ev).
 Proof. unfold exec_row. pres_auto. Qed.
 Hint Resolve p_exec_row : stab.
 
-Lemma p_exec_item fuel r s ev it : pres P (exec_item cf mc children fuel r s ev it).
+Lemma p_exec_item fuel r s ev it : pres P (exec_item cf contained mc children fuel r s ev it).
 Proof.
   unfold exec_item. destruct it; [auto with stab | | pres_auto].
   destruct (child children s) as [co|] eqn:E; [|pres_auto].
@@ -215,14 +217,14 @@ Proof.
 Qed.
 Hint Resolve p_exec_item : stab.
 
-Lemma p_run_cell fuel r s ev l : pres P (run_cell cf mc children fuel r s ev l).
+Lemma p_run_cell fuel r s ev l : pres P (run_cell cf contained mc children fuel r s ev l).
 Proof.
   unfold run_cell, fct_chain, chain_row. destruct (c_fct cf); [pres_auto|].
   destruct l as [|x [|y t]]; pres_auto.
 Qed.
 Hint Resolve p_run_cell : stab.
 
-Lemma p_regions_loop fuel ev n : forall r acc, pres P (regions_loop cf parents mc children fuel ev n r acc).
+Lemma p_regions_loop fuel ev n : forall r acc, pres P (regions_loop cf parents contained mc children fuel ev n r acc).
 Proof. induction n as [|n IH]; intros r acc; cbn [regions_loop]; pres_auto. Qed.
 Hint Resolve p_regions_loop : stab.
 
@@ -258,23 +260,23 @@ Lemma p_handle_deferred fuel : forall b, pres P (handle_deferred mc pei_rec fuel
 Proof. induction fuel as [|f IH]; intros b; cbn [handle_deferred]; pres_auto. Qed.
 Hint Resolve p_handle_deferred : stab.
 
-Lemma p_start_regions fuel ev n : forall r, pres P (start_regions cf mc children fuel ev n r).
+Lemma p_start_regions fuel ev n : forall r, pres P (start_regions cf contained mc children fuel ev n r).
 Proof. induction n as [|n IH]; intros r; cbn [start_regions]; pres_auto. Qed.
 Hint Resolve p_start_regions : stab.
 
-Lemma p_internal_start fuel ev : pres P (internal_start cf mc children pei_rec fuel ev).
+Lemma p_internal_start fuel ev : pres P (internal_start cf contained mc children pei_rec fuel ev).
 Proof. unfold internal_start. pres_auto. Qed.
 Hint Resolve p_internal_start : stab.
 
-Lemma p_exit_regions fuel ev n : forall r, pres P (exit_regions mc children fuel ev n r).
+Lemma p_exit_regions fuel ev n : forall r, pres P (exit_regions contained mc children fuel ev n r).
 Proof. induction n as [|n IH]; intros r; cbn [exit_regions]; pres_auto. Qed.
 Hint Resolve p_exit_regions : stab.
 
-Lemma p_do_exit_pre fuel ev : pres P (do_exit_pre mc children fuel ev).
+Lemma p_do_exit_pre fuel ev : pres P (do_exit_pre contained mc children fuel ev).
 Proof. unfold do_exit_pre. auto with stab. Qed.
 Lemma p_do_exit_post ev : pres P (do_exit_post mc ev).
 Proof. unfold do_exit_post. destruct (m_hist mc); pres_auto. Qed.
-Lemma p_do_stop fuel : pres P (do_stop mc children fuel).
+Lemma p_do_stop fuel : pres P (do_stop contained mc children fuel).
 Proof. unfold do_stop. pres_auto; auto using p_do_exit_pre, p_do_exit_post. Qed.
 
 (* predicates that do not look at the marker either (the kids' state) *)
@@ -286,9 +288,9 @@ Lemma p_pei_body fuel ev src : pres P (pei_body cf parents contained mc children
 Proof. unfold pei_body. pres_auto. Qed.
 Lemma p_do_entry_pre ev k : pres P (do_entry_pre mc ev k).
 Proof. unfold do_entry_pre. pres_auto. Qed.
-Lemma p_do_entry_post fuel ev k : pres P (do_entry_post cf mc children pei_rec fuel ev k).
+Lemma p_do_entry_post fuel ev k : pres P (do_entry_post cf contained mc children pei_rec fuel ev k).
 Proof. unfold do_entry_post. pres_auto. Qed.
-Lemma p_do_start fuel : pres P (do_start cf mc children pei_rec fuel).
+Lemma p_do_start fuel : pres P (do_start cf contained mc children pei_rec fuel).
 Proof. unfold do_start. pres_auto. Qed.
 End WithSP.
 End WithRec.
@@ -458,7 +460,7 @@ Hypothesis Hresets : entry_throw_resets cf = true.
 Hypothesis Hstartq : start_queues cf = true.
 
 (* the marker of this level *)
-Lemma f_entry b fuel s ev k : pres (flag_is b) (exec_entry cf mc children fuel s ev k).
+Lemma f_entry b fuel s ev k : pres (flag_is b) (exec_entry cf contained mc children fuel s ev k).
 Proof.
   unfold exec_entry. pose proof (flag_stable b) as HS.
   destruct (child children s) as [co|] eqn:E.
@@ -470,11 +472,11 @@ Proof.
 Qed.
 
 (* the kids of this level *)
-Lemma k_entry fuel s ev k : pres kids_idle (exec_entry cf mc children fuel s ev k).
+Lemma k_entry fuel s ev k : pres kids_idle (exec_entry cf contained mc children fuel s ev k).
 Proof.
   unfold exec_entry. destruct (child children s) as [co|] eqn:E.
   - rewrite Hresets. pose proof (Hch s co E) as Hco.
-    assert (Habs : forall (a:unit) Q, pres (kids_at s Q) (absorb_up mc ;; ret a)).
+    assert (Habs : forall (a:unit) Q, pres (kids_at s Q) (absorb_up contained mc ;; ret a)).
     { intros a Q. apply pres_bind; [apply p_absorb_up; apply kids_at_stable | intros; apply pres_ret]. }
     apply tri_pres. eapply tri_weaken with (Pre := kids_at s idle) (PostN := kids_at s idle) (PostE := kids_at s idle);
       [| apply kids_at_idle | apply kids_at_idle | apply kids_at_idle].
@@ -555,7 +557,7 @@ Let PEI := pei cf parents contained mc children.
 Lemma k_entry_pre ev k : pres kids_idle (do_entry_pre mc ev k).
 Proof. apply p_do_entry_pre; auto using kids_idle_stable, kids_idle_set_processing. Qed.
 
-Lemma k_entry_post fuel ev k : pres kids_idle (do_entry_post cf mc children (PEI fuel) fuel ev k).
+Lemma k_entry_post fuel ev k : pres kids_idle (do_entry_post cf contained mc children (PEI fuel) fuel ev k).
 Proof. apply p_do_entry_post; auto using kids_idle_stable, k_entry, kids_idle_set_processing. intros; apply k_pei. Qed.
 
 (* after the marker has been cleared, the rest keeps it clear *)
@@ -574,7 +576,7 @@ Lemma tri_and {A} Pre (m:M A) N1 N2 E1 E2 :
   tri Pre m N1 E1 -> tri Pre m N2 E2 -> tri Pre m (fun rn => N1 rn /\ N2 rn) (fun rn => E1 rn /\ E2 rn).
 Proof. intros H1 H2 rn g r rn' g' Hp E. specialize (H1 _ _ _ _ _ Hp E). specialize (H2 _ _ _ _ _ Hp E). destruct r; auto. Qed.
 
-Lemma c_entry_post fuel ev k : tri kids_idle (do_entry_post cf mc children (PEI fuel) fuel ev k) idle kids_idle.
+Lemma c_entry_post fuel ev k : tri kids_idle (do_entry_post cf contained mc children (PEI fuel) fuel ev k) idle kids_idle.
 Proof.
   pose proof (flag_stable false) as HS.
   eapply tri_weaken with (Pre := kids_idle).
@@ -587,11 +589,11 @@ Proof.
   - intros rn [H1 _]. exact H1.
 Qed.
 
-Lemma i_exit_pre fuel ev : pres idle (do_exit_pre mc children fuel ev).
+Lemma i_exit_pre fuel ev : pres idle (do_exit_pre contained mc children fuel ev).
 Proof. apply pres_idle; [apply p_do_exit_pre; auto using flag_stable | apply p_do_exit_pre; auto using kids_idle_stable]. Qed.
 Lemma i_exit_post ev : pres idle (do_exit_post mc ev).
 Proof. apply pres_idle; apply p_do_exit_post; auto using flag_stable, kids_idle_stable. Qed.
-Lemma i_stop fuel : pres idle (do_stop mc children fuel).
+Lemma i_stop fuel : pres idle (do_stop contained mc children fuel).
 Proof. apply pres_idle; [apply p_do_stop; auto using flag_stable | apply p_do_stop; auto using kids_idle_stable]. Qed.
 Lemma i_enqueue e : pres idle (cb_enqueue e).
 Proof. apply pres_idle; apply p_cb_enqueue; auto using flag_stable, kids_idle_stable. Qed.
@@ -611,7 +613,7 @@ Proof.
   destruct rn1; reflexivity.
 Qed.
 
-Lemma f_start fuel : pres (flag_is false) (do_start cf mc children (PEI fuel) fuel).
+Lemma f_start fuel : pres (flag_is false) (do_start cf contained mc children (PEI fuel) fuel).
 Proof.
   pose proof (flag_stable false) as HS.
   unfold do_start. rewrite Hstartq.
@@ -630,7 +632,7 @@ Proof.
   - inversion E; subst. eapply on_throw_reset_flag; eauto.
 Qed.
 
-Lemma k_start fuel : pres kids_idle (do_start cf mc children (PEI fuel) fuel).
+Lemma k_start fuel : pres kids_idle (do_start cf contained mc children (PEI fuel) fuel).
 Proof. apply p_do_start; auto using kids_idle_stable, k_entry, kids_idle_set_processing. intros; apply k_pei. Qed.
 
 Theorem back_ops_spec : cspec (back_ops cf parents contained mc children).
